@@ -21,4 +21,13 @@ PROPS = {
         "trusted": [],
         "assumptions": ["bytes are modelled as N < 256; u8 arithmetic rendered with explicit mod 256 and explicit overflow panics"],
     },
+    "C04": {
+        "prop_files": ["props/C04.v"],
+        "consts": ["n_le", "n_be", "public_key_length"],
+        "runner": "run_C04",
+        "byte_exact": True,
+        "rule": "PublicKey::from_le_bytes on 0, N, N+-256^i, +-256^i, 2N mod 2^256, 2^256-1, arrays whose bytes are each 0 or N's byte (the 2^32 class the pinned shortcut refused), random arrays; try_from_bigint / client_try_from_bigint (hook) on integers of every byte length 0..33 against several announced moduli; implementation-only oracle: the two-value predicate on random, class, sparse and neighbourhood keys.",
+        "trusted": ["num-bigint from_bytes_le / to_bytes_le / % as modelled in model/Bigint.v"],
+        "assumptions": ["the check is decided on the repaired function (fix commit a367a59); the pinned shortcut is kept as model/LegacyKey.v with its refutation"],
+    },
 }
